@@ -253,6 +253,53 @@ SHIFT_PROGS += [
 ]
 
 
+# ---- functions of every kind DEFINED inside try / catch / finally blocks: their own exits (return, normal end, throw) belong to
+# the function, not to the try statement they are written in; the enclosing handlers must be exactly as if the function were elsewhere
+FN_KINDS = {
+    "function-expr": "var fn = function (x) { log('in', x); if (x > 1) { return x * 2; } return x; };",
+    "arrow-block-return": "var fn = (x) => { log('in', x); if (x > 1) { return x * 2; } return x; };",
+    "arrow-block-no-return": "var fn = (x) => { log('in', x); };",
+    "arrow-expr": "var fn = (x) => x * 2;",
+    "arrow-block-return-void": "var fn = (x) => { log('in', x); return; };",
+    "arrow-in-arrow": "var fn = (x) => { var inner = (y) => { return y + 1; }; return inner(x); };",
+    "arrow-return-in-loop": "var fn = (x) => { for (var i = 0; i < 3; i++) { if (i === x) { return 'at' + i; } } return 'none'; };",
+    "arrow-return-in-own-try": "var fn = (x) => { try { return x; } finally { log('own-finally'); } };",
+    "arrow-break-continue": "var fn = (x) => { var n = 0; for (var i = 0; i < 4; i++) { if (i === 1) { continue; } if (i === 3) { break; } n += i; } return n; };",
+    "function-decl": "function fn(x) { log('in', x); return x * 2; }",
+    "method": "var fn = ({m(x) { log('in', x); return x * 2; }}).m;",
+    "getter": "var holder = {get g() { log('in-getter'); return 5; }}; var fn = function (x) { return holder.g + x; };",
+    "arrow-throws": "var fn = (x) => { if (x === 2) { throw new RangeError('from-arrow'); } return x; };",
+}
+FN_PLACES = {
+    "try": "try { %(def)s %(use)s %(after)s } catch (e) { log('caught', e && e.name ? e.name : e); } finally { log('finally'); }",
+    "try-catch-only": "try { %(def)s %(use)s %(after)s } catch (e) { log('caught', e && e.name ? e.name : e); }",
+    "try-finally-only": "try { try { %(def)s %(use)s %(after)s } finally { log('finally'); } } catch (e2) { log('outer', e2 && e2.name ? e2.name : e2); }",
+    "catch": "try { throw 'first'; } catch (e0) { try { %(def)s %(use)s %(after)s } catch (e) { log('caught', e && e.name ? e.name : e); } finally { log('finally'); } }",
+    "finally": "try { try { log('body'); } finally { %(def)s %(use)s %(after)s } } catch (e) { log('caught', e && e.name ? e.name : e); }",
+    "nested-try": "try { try { %(def)s %(use)s %(after)s } catch (e) { log('inner', e && e.name ? e.name : e); throw e; } finally { log('inner-finally'); } } catch (e2) { log('outer', e2 && e2.name ? e2.name : e2); } finally { log('outer-finally'); }",
+    "try-in-loop": "for (var L = 0; L < 2; L++) { try { %(def)s %(use)s %(after)s } catch (e) { log('caught', L, e && e.name ? e.name : e); } finally { log('finally', L); } }",
+    "try-in-function": "function host() { try { %(def)s %(use)s %(after)s } catch (e) { log('caught', e && e.name ? e.name : e); return 'from-catch'; } finally { log('finally'); } return 'end'; } log('host', host());",
+}
+FN_USES = {"call": "log('r', fn(2));", "map": "log('r', [1, 2, 3].map(fn));", "forEach": "[1, 2].forEach(fn);", "call-twice": "log('r', fn(1), fn(2));", "not-called": "log('defined', typeof fn);",
+           "sort": "log('r', [3, 1, 2].sort(function (a, b) { return fn(a) - fn(b); }));", "call-apply": "log('r', fn.call(null, 2), fn.apply(null, [1]));"}
+FN_AFTER = {"throw": "throw new TypeError('after');", "runtime-error": "null.x;", "nothing": "log('no-throw');", "throw-then-more": "if (typeof fn === 'function') { throw 'str'; } log('unreached');"}
+
+
+def functions_in_try(quick, seed):
+    out = []
+    k = 0
+    for kn, kd in FN_KINDS.items():
+        for pn, pl in FN_PLACES.items():
+            for un, us in FN_USES.items():
+                for an, af in FN_AFTER.items():
+                    k += 1
+                    if quick and (k + seed) % 4 and not (kn.startswith("arrow") and un in ("map", "call") and an == "throw"):
+                        continue
+                    src = pl % {"def": kd, "use": us, "after": af}
+                    out.append({"id": h(["fn-in-try", kn, pn, un, an]), "fam": "fn-in-try", "ident": [kn, pn, un + "/" + an], "src": src + "\nlog('END');\n'x';"})
+    return out
+
+
 # ---- location histories: an error's location is a function of its own throw site, not of what was thrown before it ----------------
 LOC_BODIES = ["null.alpha;", "null.beta;", "undefinedThing.prop;", "throw new Error('x');", "throw new TypeError('y');", "'a'.repeat(-1);", "(void 0)();", "new Array(-1);",
               "var q = 1; null.alpha;", "if (true) { null.alpha; }", "throw {custom: 1};", "JSON.parse('{');", "[].reduce(function () { });"]
@@ -301,6 +348,7 @@ def main(ctx):
     for ident, src in skel.enumerate_skeletons(depth2=True, contexts=ctxs):
         if ident[0] in TRYISH or ident[1] in TRYISH:
             cases.append({"id": h(["skel", ident]), "fam": "skel", "ident": list(ident), "src": src})
+    cases += functions_in_try(ctx.quick, ctx.seed)
     rng = random.Random(ctx.seed)
     nrand = 1500 if ctx.quick else 40000
     fixed = random.Random(777)
